@@ -164,6 +164,43 @@ func (g *gen) keepKnown(shape string, oneIn int) bool {
 	return false
 }
 
+// hasEscapingJump reports a break/continue in n whose target loop is not inside n.
+func hasEscapingJump(n *Node) bool {
+	found := false
+	var walk func(n *Node, loops []string)
+	walk = func(n *Node, loops []string) {
+		switch n.K {
+		case "break", "continue":
+			for i := len(loops) - 1; i >= 0; i-- {
+				if n.Label == "" || loops[i] == n.Label {
+					return
+				}
+			}
+			found = true
+			return
+		case "for":
+			for _, k := range n.Kids[:3] {
+				walk(k, loops)
+			}
+			inner := append(append([]string{}, loops...), n.Label)
+			for _, k := range n.Kids[3:] {
+				walk(k, inner)
+			}
+			return
+		case "fn", "defn":
+			for _, k := range n.Kids {
+				walk(k, nil)
+			}
+			return
+		}
+		for _, k := range n.Kids {
+			walk(k, loops)
+		}
+	}
+	walk(n, nil)
+	return found
+}
+
 // breaksCrossingCallArgs finds break/continue nodes whose target loop lies outside a
 // call argument that contains them. zygo compiles call arguments at call time, outside
 // the loop's compile-time context (known finding), so such programs are either tagged
@@ -251,6 +288,17 @@ func (g *gen) freshName(typ string, pool []string) string {
 func (g *gen) expr(typ string, depth int) *Node {
 	g.budget--
 	n := g.exprInner(typ, depth)
+	if g.cfg.Probes && typ == "int" && !hasEscapingJump(n) && g.chance(9, "tryHere") {
+		// a host function that calls the closure and contains its failure (returns -1)
+		g.feat("try")
+		n = NPrim("try", &Node{K: "fn", Kids: []*Node{n}})
+	}
+	if g.cfg.Probes && typ == "int" && g.probeN < 12 && g.chance(5, "probeHere") {
+		// a host-function call that can be made to fail (C05)
+		g.probeN++
+		g.feat("probe")
+		n = NPrim("+", n, &Node{K: "probe", I: int64(g.probeN)})
+	}
 	if typ == "int" || typ == "bool" || typ == "str" {
 		return g.maybeTrace(n)
 	}
